@@ -20,11 +20,11 @@ import (
 )
 
 type ctx struct {
-	w     *bufio.Writer
-	rng   *rand.Rand
-	tier  string
-	thor  bool
-	args  []string
+	w    *bufio.Writer
+	rng  *rand.Rand
+	tier string
+	thor bool
+	args []string
 }
 
 func (c *ctx) emit(format string, a ...interface{}) {
